@@ -26,13 +26,15 @@ def argChecks : Call → List (Except Exc Unit)
   | .tagObject pid cid => [unitOf (checkString pid), unitOf (checkString cid)]
   | .deleteIfInvalid om cks ca sz =>
       [unitOf (checkString cks), unitOf (checkString ca), checkInteger sz,
-       (match om with | none => .error .valueError | some _ => .ok ())]
+       (match om with | none => .error .valueError | some _ => .ok ()),
+       (match checkString ca with | .ok a => unitOf (cleanAlgorithm a) | .error _ => .ok ())]
   | .storeMetadata pid data fmt => [unitOf (checkString pid), checkArgData data, unitOf (checkArgFormatId cfg.ns fmt)]
   | .retrieveObject pid => [unitOf (checkString pid)]
   | .retrieveMetadata pid fmt => [unitOf (checkString pid), unitOf (checkArgFormatId cfg.ns fmt)]
   | .deleteObject pid => [unitOf (checkString pid)]
   | .deleteMetadata pid fmt => [unitOf (checkString pid), unitOf (checkArgFormatId cfg.ns fmt)]
-  | .getHexDigest pid alg => [unitOf (checkString pid), unitOf (checkString alg)]
+  | .getHexDigest pid alg => [unitOf (checkString pid), unitOf (checkString alg),
+       (match checkString alg with | .ok a => unitOf (cleanAlgorithm a) | .error _ => .ok ())]
 
 theorem rejected_is_return (c : Call) (e : Exc) (h : firstErr (argChecks cfg c) = some e) :
     (c.prog cfg o : Prog (Except Exc Val)) = Prog.ret (.error e) := by
@@ -84,7 +86,10 @@ theorem rejected_is_return (c : Call) (e : Exc) (h : firstErr (argChecks cfg c) 
     | ok p =>
       cases ha : checkString alg with
       | error e2 => simp [hp, ha, unitOf, firstErr] at h; subst h; rfl
-      | ok a => simp [hp, ha, unitOf, firstErr] at h
+      | ok a =>
+        cases hcl : cleanAlgorithm a with
+        | error e3 => simp [hp, ha, hcl, unitOf, firstErr] at h; subst h; simp only [PE.ofExcept_ok_bind]; rw [hcl]; rfl
+        | ok a' => simp [hp, ha, hcl, unitOf, firstErr] at h
   | storeMetadata pid data fmt =>
     simp only [argChecks] at h
     simp only [Call.prog, storeMetadata]
@@ -111,7 +116,10 @@ theorem rejected_is_return (c : Call) (e : Exc) (h : firstErr (argChecks cfg c) 
         | ok u =>
           cases om with
           | none => simp [hc, ha, hi, unitOf, firstErr] at h; subst h; rfl
-          | some m => simp [hc, ha, hi, unitOf, firstErr] at h
+          | some m =>
+            cases hcl : cleanAlgorithm a with
+            | error e4 => simp [hc, ha, hi, hcl, unitOf, firstErr] at h; subst h; simp only [PE.ofExcept_ok_bind]; rw [hcl]; rfl
+            | ok a' => simp [hc, ha, hi, hcl, unitOf, firstErr] at h
   | storeObject pid data add cks ca sz =>
     simp only [Call.prog, storeObject]
     cases pid with
